@@ -270,7 +270,7 @@ def quantile(
     keepdim: bool = False,
     q: float = 0.5,
     interpolation: Literal[
-        "linear", "lowest", "higher", "nearest", "midpoint"
+        "linear", "lower", "higher", "nearest", "midpoint"
     ] = "linear",
     **kwargs,
 ) -> torch.Tensor:
@@ -312,7 +312,7 @@ def nanquantile(
     keepdim: bool = False,
     q: float = 0.5,
     interpolation: Literal[
-        "linear", "lowest", "higher", "nearest", "midpoint"
+        "linear", "lower", "higher", "nearest", "midpoint"
     ] = "linear",
     **kwargs,
 ) -> torch.Tensor:
